@@ -32,6 +32,11 @@ TG_CONSUMERS = [
     ('function-returning-pointer-to', 'T *c21(T *p) { return p; }'), ('redeclaration', 'extern T o22; extern T o22;'), ('typedef-chain', 'typedef T T2; typedef T2 T3; T3 *o23;'),
     ('auto-object', 'void c24(void) { T al; (void)&al; }'), ('auto-initialised', 'void c25(void) { T ai = {0}; (void)&ai; }'), ('va-arg', 'void c26(int n, ...) { __builtin_va_list ap; __builtin_va_start(ap, n); (void)__builtin_va_arg(ap, T); __builtin_va_end(ap); }'),
     ('types-compatible', 'int c27 = __builtin_types_compatible_p(T, typeof(T));'), ('array-of-pointers', 'T *o28[3];'), ('pointer-incremented', 'void *c30(T *p) { ++p; p--; return p; }'), ('pointer-subscripted', 'void *c31(T *p) { return &p[2]; }'), ('function-pointer-parameter', 'void (*o29)(T, T *);'),
+    # constants of the type in folded operators (the folder reads signedness and width from the type: seeded round 8, a pointer type has neither)
+    ('folded-compare', 'int c32 = (T)-1 > (T)1; int c33 = (T)-1 <= (T)1; char c34[((T)-1 < (T)1) + 1]; enum { c35 = (T)-1 >= (T)1, c36 = (T)1 == (T)1, c37 = (T)-1 != (T)1 };'),
+    ('folded-arithmetic', 'long c38 = (long)((T)-8 / (T)2); long c39 = (long)((T)-8 >> 1); long c40 = (long)((T)-8 % (T)3); long c41 = (long)((T)3 - (T)1); long c42 = (long)-(T)1;'),
+    ('folded-logical', 'int c43 = !(T)0 + ((T)1 && (T)0) + ((T)0 || (T)2) + ((T)0 ? 1 : 2); _Static_assert(!(T)0, "");'),
+    ('folded-conversion', 'long c44 = (long)(T)(unsigned char)300; double c45 = (double)(T)-1; unsigned long c46 = (unsigned long)(T)-1.5;'),
 ]
 
 
